@@ -310,20 +310,27 @@ func VerifC03Box(boxType string, n int, large bool) {
 	}
 }
 
-// VerifC04Box: untrusted box bytes (symbolic size field and body) never crash, hang or balloon.
-func VerifC04Box(boxType string, n int, large bool, reader bool) {
-	hl := hdrLen(large)
-	in := make([]byte, 0, hl+n)
-	if large {
-		in = append(in, 0, 0, 0, 1)
+// VerifC04Box: untrusted box bytes never crash, hang or balloon. symsize: the 32-bit size
+// field (or the largesize) is symbolic too, so truncation and size-field corruption are inside
+// the explored space; otherwise the header is exact and only the body is symbolic.
+func VerifC04Box(boxType string, n int, large bool, reader bool, symsize bool, allLevels bool) {
+	var in []byte
+	if symsize {
+		hl := hdrLen(large)
+		in = make([]byte, 0, hl+n)
+		if large {
+			in = append(in, 0, 0, 0, 1)
+		} else {
+			in = append(in, vfy.Bytes("size", 4)...)
+		}
+		in = append(in, boxType...)
+		if large {
+			in = append(in, vfy.Bytes("largesize", 8)...)
+		}
+		in = append(in, vfy.Bytes("body", n)...)
 	} else {
-		in = append(in, vfy.Bytes("size", 4)...)
+		in = verifBoxBytes(boxType, n, large)
 	}
-	in = append(in, boxType...)
-	if large {
-		in = append(in, vfy.Bytes("largesize", 8)...)
-	}
-	in = append(in, vfy.Bytes("body", n)...)
 	vfy.InputLen(len(in))
 	b, err := decodeEither(in, reader)
 	if err != nil {
@@ -332,28 +339,11 @@ func VerifC04Box(boxType string, n int, large bool, reader bool) {
 	vfy.Cover("decoded")
 	vfy.Cover("decoded:" + boxType)
 	var ib bytes.Buffer
-	_ = b.Info(&ib, []string{"", "all:1", "all:2", boxType + ":1"}[vfy.Choose("level", 4)], "", "  ")
+	levels := []string{"all:1", "", "all:2", boxType + ":1"}
+	if !allLevels {
+		levels = levels[:1]
+	}
+	_ = b.Info(&ib, levels[vfy.Choose("level", len(levels))], "", "  ")
 	_, _ = encodeWBytes(b)
 	_, _ = encodeSWBytes(b)
-}
-
-// VerifC01Discover is a development aid (not a registered check): it reports which body bits
-// can change across decode -> encode, to propose entries of the don't-care table for review.
-func VerifC01Discover(boxType string, n int) {
-	in := verifBoxBytes(boxType, n, false)
-	b, err := DecodeBoxSR(0, bits.NewFixedSliceReader(in))
-	if err != nil {
-		return
-	}
-	out, err := encodeSWBytes(b)
-	if err != nil {
-		return
-	}
-	if len(out) != len(in) {
-		vfy.MayDiffer(fmt.Sprintf("%s n=%d LEN out=%d", boxType, n, len(out)-8), 1)
-		return
-	}
-	for i := 8; i < len(in); i++ {
-		vfy.MayDiffer(fmt.Sprintf("%s n=%d byte %03d", boxType, n, i-8), out[i]^in[i])
-	}
 }
